@@ -74,6 +74,23 @@ func NormalizeLoop(fset *token.FileSet, info *types.Info, rs *ast.RangeStmt) str
 			rename[o] = "VAL"
 		}
 	}
+	// accumulators: variables declared outside the loop and assigned inside it, renamed positionally
+	accN := 0
+	ast.Inspect(rs.Body, func(n ast.Node) bool {
+		if as, ok := n.(*ast.AssignStmt); ok && as.Tok != token.DEFINE {
+			for _, l := range as.Lhs {
+				if id, ok := l.(*ast.Ident); ok {
+					if o := info.Uses[id]; o != nil && (o.Pos() < rs.Pos() || o.Pos() > rs.End()) {
+						if _, seen := rename[o]; !seen {
+							rename[o] = "ACC" + string(rune('0'+accN))
+							accN++
+						}
+					}
+				}
+			}
+		}
+		return true
+	})
 	carrier := types.ExprString(rs.X)
 	var buf bytes.Buffer
 	_ = printer.Fprint(&buf, fset, rs.Body)
